@@ -141,7 +141,8 @@ def quadratic_spline(
 
     if inverse:
         c_ = c - inputs
-        alpha = (-b + torch.sqrt(b.pow(2) - 4 * a * c_)) / (2 * a)
+        # Equal to (-b + sqrt(b^2 - 4ac_)) / (2a), but well defined for a == 0 (equal adjacent heights).
+        alpha = (2 * c_) / (-b - torch.sqrt(b.pow(2) - 4 * a * c_))
         outputs = alpha * input_bin_widths + input_bin_locations
         outputs = torch.clamp(outputs, 0, 1)
         logabsdet = -torch.log(
